@@ -5,6 +5,7 @@
 #include <memory>
 #include <vector>
 #include <optional>
+#include <functional>
 
 namespace sqf::runtime
 {
@@ -24,6 +25,8 @@ namespace sqf::runtime
             std::vector<sqf::runtime::instruction::sptr>::const_reverse_iterator end,
             short parent_precedence, bool left_from_binary) const = 0;
         virtual bool equals(const instruction* p_other) const = 0;
+        // Hash consistent with equals(): instructions that compare equal hash equally.
+        virtual std::size_t hash() const { return std::hash<std::string>()(to_string()); }
 
         sqf::runtime::diagnostics::diag_info diag_info() const { return m_diag_info; }
         void diag_info(sqf::runtime::diagnostics::diag_info dinf) { m_diag_info = dinf; }
